@@ -19,6 +19,8 @@ package main
 //        holdmu / freemu  the harness itself takes / releases the vigil's condition mutex; `cease` and `wait` issued in
 //                       between line up on it (`queued`) and get it in that order when it is released (Go hands a
 //                       starving mutex over FIFO) — this reaches the window between a waiter's check and its Lock
+//        delpanic       gateway.Delete's retry on the freshly mapped instance with a panic injected inside its
+//                       DeleteTreasure: reply `panicked=… vig=<counter of the fresh instance afterwards> destroy=done|stuck`
 //        destroysave    Destroy() of a swamp instance while a Save (holding its vigil) stands right before its
 //                       `s.mu.RLock()`: reply `mu=<state of s.mu when the drain begins> done|stuck`
 //        closefail      Close() of a swamp instance whose chronicler fails its final Close(); does a
@@ -43,6 +45,7 @@ import (
 	"sync/atomic"
 	"time"
 
+	"github.com/hydraide/hydraide/app/core/hydra"
 	"github.com/hydraide/hydraide/app/core/hydra/swamp"
 	"github.com/hydraide/hydraide/app/core/hydra/swamp/chronicler"
 	"github.com/hydraide/hydraide/app/core/hydra/swamp/metadata"
@@ -392,6 +395,98 @@ func c17DestroySave(restore func()) string {
 	return fmt.Sprintf("destroysave mu=%s %s", mu, res)
 }
 
+type c17ReqKey struct{}
+
+// c17DelPanic: the retry path of gateway.Delete (the instance the request holds has been destroyed meanwhile and
+// the swamp exists again) with a panic inside the DeleteTreasure it runs on the fresh instance — injected at the
+// `del.acquired` hook, i.e. with the record guard held; every handler recovers panics.  Whatever the handler
+// took on the fresh instance must have been given back: its vigil counter is read, and a Destroy of that
+// instance (its drain) must return.
+func c17DelPanic(restore func()) string {
+	rig, err := NewRig(2, 100, 3600, 1)
+	if err != nil {
+		return "delpanic rig-err"
+	}
+	defer rig.Stop(true)
+	bg := context.Background()
+	sw := name.New().Sanctuary("c17").Realm("handlers").Swamp("retry")
+	val, _ := msgpack.Marshal("x")
+	put := func(key string) bool {
+		r, e := rig.GW.PatchTreasures(bg, &hydrapb.PatchTreasuresRequest{IslandID: 1, SwampName: sw.Get(), CreateIfNotExist: true,
+			Patches: []*hydrapb.TreasurePatch{{Key: key, Ops: []*hydrapb.PatchOp{{Op: hydrapb.PatchOp_SET, Path: "a", Value: val}}}}})
+		return e == nil && r != nil
+	}
+	if !put("k1") {
+		return "delpanic setup-err"
+	}
+	held, rel := make(chan struct{}, 1), make(chan struct{})
+	var r1 atomic.Value // goroutine id of the request under test
+	var armed atomic.Bool
+	verifhook.SetHandler(func(hook string, args ...any) {
+		switch hook {
+		case "summon.leave.dec":
+			if ctx, ok := args[0].(context.Context); ok && ctx != nil && ctx.Value(c17ReqKey{}) != nil {
+				select {
+				case held <- struct{}{}: // the first SummonSwamp of the request: it has its instance, no vigil yet
+					<-rel
+				default:
+				}
+			}
+		case "del.acquired":
+			if g, _ := r1.Load().(string); armed.Load() && g != "" && g == goid() {
+				armed.Store(false)
+				panic("injected: panic inside DeleteTreasure")
+			}
+		}
+	})
+	defer restore()
+	done := make(chan struct{})
+	go func() {
+		defer close(done)
+		r1.Store(goid())
+		_, _ = rig.GW.Delete(context.WithValue(bg, c17ReqKey{}, 1), &hydrapb.DeleteRequest{Swamps: []*hydrapb.DeleteRequest_SwampKeys{{IslandID: 1, SwampName: sw.Get(), Keys: []string{"k9"}}}})
+	}()
+	select {
+	case <-held:
+	case <-time.After(HxScale(3 * time.Second)):
+		close(rel)
+		return "delpanic timeout no-summon"
+	}
+	// meanwhile: the last key goes (auto-destroy of the instance the request holds), then the swamp is created again
+	_, _ = rig.GW.Delete(bg, &hydrapb.DeleteRequest{Swamps: []*hydrapb.DeleteRequest_SwampKeys{{IslandID: 1, SwampName: sw.Get(), Keys: []string{"k1"}}}})
+	if !put("k9") {
+		close(rel)
+		return "delpanic setup-err"
+	}
+	fresh, ok := hydra.VerifMappedSwamp(rig.Zeus.GetHydra(), sw.Get())
+	if !ok {
+		close(rel)
+		return "delpanic setup-err no-fresh"
+	}
+	armed.Store(true)
+	close(rel)
+	select {
+	case <-done:
+	case <-time.After(HxScale(3 * time.Second)):
+		return "delpanic timeout handler"
+	}
+	reached := !armed.Load()
+	vig := swamp.VerifVigilCount(fresh)
+	fin := make(chan struct{})
+	go func() { fresh.Destroy(); close(fin) }()
+	res := "done"
+	select {
+	case <-fin:
+	case <-time.After(HxScale(1500 * time.Millisecond)):
+		res = "stuck" // the watchdog OBSERVES non-termination of the drain
+		for i := int64(0); i < vig; i++ {
+			fresh.CeaseVigil() // let it end
+		}
+		<-fin
+	}
+	return fmt.Sprintf("delpanic panicked=%v vig=%d destroy=%s", reached, vig, res)
+}
+
 func init() {
 	Register("C17", Domain{Gen: genC17, Run: runC17})
 }
@@ -406,7 +501,7 @@ func genC17(rng *rand.Rand, tier string, w *bufio.Writer) {
 	fmt.Fprintln(w, "case 0\nbegin\nwait\ncease\nbcast\nwgo 1\nexpect 1\nbcast\nexpect 1")
 	fmt.Fprintln(w, "case 1\nbegin\nbegin\nwait\ncease\nbcast\nwgo 1\nexpect 1\ncease\nbcast\nexpect 1")
 	fmt.Fprintln(w, "case 2\nbegin\nwait\nwgo 1\nexpect 1\ncease\nexpect 1\nbcast\nexpect 1\nwait\nexpect 2")
-	fmt.Fprintln(w, "case 3\nrpcs\nclosefail\ndestroysave")
+	fmt.Fprintln(w, "case 3\nrpcs\nclosefail\ndestroysave\ndelpanic")
 	// the last operation ends while a waiter is on its way to the mutex: with check and sleep decided under the mutex it returns
 	fmt.Fprintln(w, "case 4\nbegin\nholdmu\ncease\nwait\nfreemu\nbcast\nwgo 1\nexpect 1")
 	fmt.Fprintln(w, "case 5\nbegin\nbegin\nholdmu\nwait\ncease\nfreemu\nwgo 1\nbcast\ncease\nbcast\nexpect 1")
@@ -578,6 +673,8 @@ func runC17(in *bufio.Scanner, out *bufio.Writer) {
 			w.mu.Unlock()
 			w.muQueue = nil
 			fmt.Fprintf(out, "freemu %s %s\n", strings.Join(res, " "), w.state())
+		case "delpanic":
+			fmt.Fprintln(out, c17DelPanic(func() { verifhook.SetHandler(w.handler) }))
 		case "destroysave":
 			fmt.Fprintln(out, c17DestroySave(func() { verifhook.SetHandler(w.handler) }))
 		case "closefail":
